@@ -207,6 +207,10 @@ def run_pool(case):
         proj.write_workflow(gen.render_workflow(ts))
         with realpool.Pool(proj, ncores=2) as pool:
             env = cli.env_for(None, ())
+            # the pool has been used before: it has handed out many more ids than it has been up seconds
+            for _ in range(90):
+                pool.raw_enqueue("filler", "true", proj.root, time_limit=None, deps=[])
+            pool.wait_states(lambda st: all(v == "COMPLETED" for v in st.values()), timeout=40)
             r = cli.gwf(proj.root, ["run", "a0", "a1", "a2", "b0"], env, audit=False)
             if r.rc != 0:
                 res.violation("crash", "gwf -b local run failed", **cli.crash_witness(r))
@@ -272,6 +276,9 @@ def run_pool(case):
             # ---- the pool is restarted: ids tracked from the previous instance are unknown to the new one.
             # `gwf cancel stale live`: the stale one cannot be cancelled (reported), the live one must be.
             pool.restart()
+            # other clients use the new instance at once; none of their tasks is one of ours
+            unrelated = [pool.raw_enqueue("unrelated", "true", proj.root, time_limit=None, deps=[]) for _ in range(140)]
+            pool.wait_states(lambda st: all(st.get(t_) == "COMPLETED" for t_ in unrelated), timeout=60)
             stale_names = [n for n in ("a1", "a2")]
             r = cli.gwf(proj.root, ["run", "never"], env, audit=False)  # 'never' gets a live task in the new pool
             tid2 = proj.state_files().get("local-backend-tracked.json", {})
@@ -292,6 +299,9 @@ def run_pool(case):
                 res.violation("uncancellable-not-reported", "local: targets whose task ids the restarted pool does not know were not reported as not cancellable", output=(r.out + r.err)[-500:])
             elif st.get(live) != "CANCELLED":
                 res.violation("cancel-stopped-early", "local: after a pool restart `gwf cancel a1 a0 a2` (a1, a2 tracked from the old pool instance) left the live task of a0 in state %s: an uncancellable target prevented the others from being cancelled" % st.get(live), output=(r.out + r.err)[-500:], states=st)
+            hit = [t_ for t_ in unrelated if st.get(t_) != "COMPLETED"]
+            if hit:
+                res.violation("cancel-wrong-ids", "local: after a pool restart `gwf cancel a1 a0 a2` cancelled %d task(s) of other clients (ids %s)" % (len(hit), hit[:5]), tracked=tid2)
             if not pool.alive():
                 res.violation("crash", "worker pool died", log=pool.read_log()[-500:])
         res.sig = ("local", "pool", case["seed"] % 3)
